@@ -6,6 +6,7 @@ import (
 	"net/url"
 	"os"
 	"path/filepath"
+	"sort"
 	"strconv"
 	"strings"
 )
@@ -597,7 +598,13 @@ func (rule *RuleAction) checkAction(meta *ActionMetadata, exec *ExecAction, desc
 	}
 
 	// Check mandatory inputs are specified
-	for id, i := range meta.Inputs {
+	ids := make([]string, 0, len(meta.Inputs))
+	for id := range meta.Inputs {
+		ids = append(ids, id)
+	}
+	sort.Strings(ids) // Report in deterministic order. The iteration order of map is random
+	for _, id := range ids {
+		i := meta.Inputs[id]
 		if i.Required {
 			if _, ok := exec.Inputs[id]; !ok {
 				ns := make([]string, 0, len(meta.Inputs))
